@@ -149,6 +149,7 @@ type Exec struct {
 	sharedWrites int
 	atomicEvents int
 	choiceVals   map[string]uint64
+	pools        map[poolKey][]Value // sync.Pool contents (contract model), see stubPoolGet
 	cfg          *RunCfg
 }
 
